@@ -20,6 +20,7 @@ import warnings
 HERE = os.path.dirname(os.path.abspath(__file__))
 VERIF = os.path.dirname(HERE)
 REPO = os.environ.get("VERIF_REPO", "/repo")
+OUT = os.environ.get("VERIF_OUT") or VERIF     # development runs against scratch trees may write evidence / replays elsewhere
 sys.path.insert(0, VERIF)
 sys.path.insert(0, REPO)          # gemclus must come from the working tree under test
 sys.dont_write_bytecode = True
@@ -79,7 +80,7 @@ def match_known(pid, rec, known):
 
 
 def write_replay(pid, rec):
-    d = os.path.join(VERIF, "replays", pid)
+    d = os.path.join(OUT, "replays", pid)
     os.makedirs(d, exist_ok=True)
     body = core.dumps(rec, sort_keys=True, indent=1)
     sha = hashlib.sha1(body.encode()).hexdigest()[:12]
@@ -251,8 +252,8 @@ def main():
         "wall_s": round(time.time() - t0, 2), "violations": len(violations),
     }
     if not a.only:
-        os.makedirs(os.path.join(VERIF, "evidence"), exist_ok=True)
-        evp = os.path.join(VERIF, "evidence", f"{pid}.json")
+        os.makedirs(os.path.join(OUT, "evidence"), exist_ok=True)
+        evp = os.path.join(OUT, "evidence", f"{pid}.json")
         with open(evp, "w") as f:
             f.write(core.dumps(ev, indent=1))
         if not validate_evidence(evp):
